@@ -17,22 +17,15 @@ from .unescape import unescape_string
 StateFn: TypeAlias = Callable[[], Optional["StateFn"]]
 
 RE_ASSIGN_OP = re.compile(r"=")  # TODO: scan until ch?
-RE_DROP = re.compile(r"DROP")
 RE_GRAMMAR_DOC = re.compile(r"//!")
 RE_IDENTIFIER = re.compile(r"[_a-zA-Z][_a-zA-Z0-9]*")
 RE_INTEGER = re.compile(r"[0-9]+|-0*[1-9][0-9]*")
 RE_MODIFIER = re.compile(r"[_@\$!]")
 RE_NEWLINE = re.compile(r"\r?\n")
 RE_NUMBER = re.compile(r"[0-9]+")
-RE_PEEK = re.compile(r"PEEK")
-RE_PEEK_ALL = re.compile(r"PEEK_ALL")
-RE_POP = re.compile(r"POP")
-RE_POP_ALL = re.compile(r"POP_ALL")
-RE_PUSH = re.compile(r"PUSH")
-RE_PUSH_LITERAL = re.compile(r"PUSH_LITERAL")
 RE_RANGE_OP = re.compile(r"\.\.")
 RE_RULE_DOC = re.compile(r"///")
-RE_TAG = re.compile(r"#[_a-zA-Z][_a-zA-Z0-9]*(?=\s*=)")
+RE_TAG = re.compile(r"#[_a-zA-Z][_a-zA-Z0-9]*")
 RE_WHITESPACE = re.compile(r"(?:[ \t\n]|\r\n)+")
 RE_CHAR = re.compile(
     r"'(?>\\[\\\"rnt0']|\\x[0-9a-fA-F]{2}|\\u\{[0-9a-fA-F]{2,6}\}|(?s:.))'"
@@ -153,6 +146,10 @@ class Scanner:
         self.skip_trivia()
 
         if value := self.scan(RE_IDENTIFIER):
+            if value.startswith("PUSH"):
+                # identifier = @{ !"PUSH" ~ ("_" | alpha) ~ ("_" | alpha_num)* }
+                self.pos = self.start
+                return self.error("identifiers can't start with PUSH")
             self.emit(TokenKind.IDENTIFIER, value)
         elif self.pos == len(self.grammar):
             return None
@@ -224,65 +221,25 @@ class Scanner:
 
     def accept_term(self) -> None:
         if value := self.scan(RE_TAG):
-            # Assumes RE_TAG is using a lookahead assertion for "=".
             self.emit(TokenKind.TAG, value)
             self.skip_trivia()
-            self.emit(TokenKind.ASSIGN_OP, self.next())
+            if self.peek() == "=":
+                self.emit(TokenKind.ASSIGN_OP, self.next())
+            else:
+                self.error("expected the assignment operator")
             self.skip_trivia()
 
-        if self.peek() == "&":
-            self.emit(TokenKind.POSITIVE_PREDICATE, self.next())
-            self.skip_trivia()
-        elif self.peek() == "!":
-            while self.peek() == "!":
+        # Any number of predicates, in any order.
+        while True:
+            if self.peek() == "&":
+                self.emit(TokenKind.POSITIVE_PREDICATE, self.next())
+            elif self.peek() == "!":
                 self.emit(TokenKind.NEGATIVE_PREDICATE, self.next())
-                self.skip_trivia()
-
-        if self.accept_terminal():
-            self.accept_postfix_op()
-            return
-
-        if self.peek() == "(":
-            self.emit(TokenKind.LPAREN, self.next())
-        else:
-            self.error("expected an opening paren")
-
-        self.skip_trivia()
-        self.accept_expression()
-        self.skip_trivia()
-
-        if self.peek() == ")":
-            self.emit(TokenKind.RPAREN, self.next())
-        else:
-            self.error("expected a closing paren")
-
-        self.accept_postfix_op()
-
-    def accept_terminal(self) -> bool:  # noqa: PLR0911, PLR0912, PLR0915
-        if value := self.scan(RE_PUSH_LITERAL):
-            self.emit(TokenKind.PUSH_LITERAL, value)
-            self.skip_trivia()
-
-            if self.peek() == "(":
-                self.emit(TokenKind.LPAREN, self.next())
             else:
-                self.error("expected an opening paren")
-
-            self.skip_trivia()
-            self.accept_string()
+                break
             self.skip_trivia()
 
-            if self.peek() == ")":
-                self.emit(TokenKind.RPAREN, self.next())
-            else:
-                self.error("expected a closing paren")
-
-            return True
-
-        if value := self.scan(RE_PUSH):
-            self.emit(TokenKind.PUSH, value)
-            self.skip_trivia()
-
+        if not self.accept_terminal():
             if self.peek() == "(":
                 self.emit(TokenKind.LPAREN, self.next())
             else:
@@ -297,26 +254,83 @@ class Scanner:
             else:
                 self.error("expected a closing paren")
 
-            return True
+        # Any number of postfix operators.
+        while self.accept_postfix_op():
+            pass
 
-        if value := self.scan(RE_PEEK_ALL):
-            self.emit(TokenKind.PEEK_ALL, value)
-            return True
+    def accept_terminal(self) -> bool:  # noqa: PLR0911, PLR0912, PLR0915
+        if value := self.scan(RE_IDENTIFIER):
+            if value == "PUSH_LITERAL":
+                self.emit(TokenKind.PUSH_LITERAL, value)
+                self.skip_trivia()
 
-        if value := self.scan(RE_POP_ALL):
-            self.emit(TokenKind.POP_ALL, value)
-            return True
+                if self.peek() == "(":
+                    self.emit(TokenKind.LPAREN, self.next())
+                else:
+                    self.error("expected an opening paren")
 
-        if value := self.scan(RE_POP):
-            self.emit(TokenKind.POP, value)
-            return True
+                self.skip_trivia()
+                if not self.accept_string():
+                    self.error("expected a string literal")
+                self.skip_trivia()
 
-        if value := self.scan(RE_DROP):
-            self.emit(TokenKind.DROP, value)
-            return True
+                if self.peek() == ")":
+                    self.emit(TokenKind.RPAREN, self.next())
+                else:
+                    self.error("expected a closing paren")
 
-        if value := self.scan(RE_PEEK):
+                return True
+
+            if value == "PUSH":
+                self.emit(TokenKind.PUSH, value)
+                self.skip_trivia()
+
+                if self.peek() == "(":
+                    self.emit(TokenKind.LPAREN, self.next())
+                else:
+                    self.error("expected an opening paren")
+
+                self.skip_trivia()
+                self.accept_expression()
+                self.skip_trivia()
+
+                if self.peek() == ")":
+                    self.emit(TokenKind.RPAREN, self.next())
+                else:
+                    self.error("expected a closing paren")
+
+                return True
+
+            if value.startswith("PUSH"):
+                # identifier = @{ !"PUSH" ~ ("_" | alpha) ~ ("_" | alpha_num)* }
+                self.pos = self.start
+                self.error("identifiers can't start with PUSH")
+
+            # The stack keywords are keywords only when they are the whole
+            # identifier. `POPPER` is a rule name.
+            if value == "PEEK_ALL":
+                self.emit(TokenKind.PEEK_ALL, value)
+                return True
+
+            if value == "POP_ALL":
+                self.emit(TokenKind.POP_ALL, value)
+                return True
+
+            if value == "POP":
+                self.emit(TokenKind.POP, value)
+                return True
+
+            if value == "DROP":
+                self.emit(TokenKind.DROP, value)
+                return True
+
+            if value != "PEEK":
+                self.emit(TokenKind.IDENTIFIER, value)
+                return True
+
             self.emit(TokenKind.PEEK, value)
+            self.skip_trivia()
+
             if self.peek() == "[":
                 self.emit(TokenKind.LBRACKET, self.next())
             else:
@@ -330,6 +344,7 @@ class Scanner:
 
             if value := self.scan(RE_RANGE_OP):
                 self.emit(TokenKind.RANGE_OP, value)
+                self.skip_trivia()
             else:
                 self.error("expected a range operator")
 
@@ -340,12 +355,8 @@ class Scanner:
             if self.peek() == "]":
                 self.emit(TokenKind.RBRACKET, self.next())
             else:
-                self.error("expected a closing paren")
+                self.error("expected a closing bracket")
 
-            return True
-
-        if value := self.scan(RE_IDENTIFIER):
-            self.emit(TokenKind.IDENTIFIER, value)
             return True
 
         if self.accept_string() or self.accept_ci_string():
@@ -371,18 +382,25 @@ class Scanner:
 
         return False
 
-    def accept_postfix_op(self) -> None:
+    def accept_postfix_op(self) -> bool:
+        """Scan one postfix operator. Return False if there isn't one."""
+        # Implicit whitespace and comments can come before a postfix operator.
+        self.skip_trivia()
         ch = self.peek()
-
         if ch == "?":
             self.emit(TokenKind.OPTION_OP, self.next())
-        elif ch == "*":
-            self.emit(TokenKind.REPEAT_OP, self.next())
-        elif ch == "+":
-            self.emit(TokenKind.REPEAT_ONCE_OP, self.next())
-        elif ch == "{":
-            self.emit(TokenKind.LBRACE, self.next())
+            return True
 
+        if ch == "*":
+            self.emit(TokenKind.REPEAT_OP, self.next())
+            return True
+
+        if ch == "+":
+            self.emit(TokenKind.REPEAT_ONCE_OP, self.next())
+            return True
+
+        if ch == "{":
+            self.emit(TokenKind.LBRACE, self.next())
             while True:
                 self.skip_trivia()
                 if self.peek() == ",":
@@ -397,6 +415,10 @@ class Scanner:
                 self.emit(TokenKind.RBRACE, self.next())
             else:
                 self.error("expected a closing brace")
+
+            return True
+
+        return False
 
     def accept_string(self) -> bool:
         if self.peek() != '"':
@@ -435,6 +457,7 @@ class Scanner:
 
         # Skip '^'.
         self.pos += 1
+        self.skip_trivia()
         self.start = self.pos
 
         if self.peek() != '"':
